@@ -4,6 +4,7 @@
 //! that a TLA+ trace specification accepts or rejects.
 mod av;
 mod conc;
+mod payload;
 mod sources;
 mod stream;
 mod total;
@@ -90,6 +91,7 @@ fn main() {
         "wire" => wirecases::run(&args),
         "total" => total::run(&args),
         "stream" => stream::run(&args),
+        "payload" => payload::run(&args),
         "bomb-child" => total::bomb_child(&args),
         other => {
             eprintln!("vh: unknown command {other}");
